@@ -204,7 +204,8 @@ def mkdata(nx, ny, opt, nb, nl, counter):
     d = dict(nx=nx, ny=ny)
     for k in ("rdim", "zdim", "rcentr", "rleft", "zmid", "rmagx", "zmagx", "simagx", "sibdry", "bcentr", "cpasma"):
         d[k] = val()
-    for k in ("fpol", "pres", "qpsi") + (("ffprime", "pprime") if opt else ()):
+    extra = {True: ("ffprime", "pprime"), False: (), "ff": ("ffprime",), "pp": ("pprime",)}[opt]  # the two optional profiles are independent
+    for k in ("fpol", "pres", "qpsi") + extra:
         d[k] = numpy.array([val() for _ in range(nx)])
     d["psi"] = numpy.array([[val() for _ in range(ny)] for _ in range(nx)])
     if nb:
@@ -250,7 +251,7 @@ def alignment(S):
     nmax = 12
     bad_all = []
     n = 0
-    variants = [(True, 0, 0), (False, 0, 0), (True, 1, 0), (True, 0, 1), (True, 3, 4), (False, 7, 2)]
+    variants = [(True, 0, 0), (False, 0, 0), (True, 1, 0), (True, 0, 1), (True, 3, 4), (False, 7, 2), ("ff", 0, 0), ("pp", 0, 0), ("ff", 2, 3), ("pp", 3, 2)]
     for nx in range(1, nmax + 1):
         for ny in range(1, nmax + 1):
             for opt, nb, nl in variants:
